@@ -5,17 +5,33 @@ import os
 from .common import NCPU, Undecided
 
 
+# scripts by the kind of shaper they get (only used to class a failing case against the text's direction)
+JOINING = {"Arab", "Syrc", "Mong", "Nkoo", "Phag", "Mand", "Mani", "Phlp", "Adlm", "Rohg", "Sogd", "Chrs", "Ougr"}
+PLAIN = {"Latn", "Cyrl", "Grek", "Armn", "Geor", "Hani", "Hira", "Kana", "Zyyy", "Zinh", "Zzzz", "Copt", "Cher", "Ethi", "Hebr", "Thai",
+         "Laoo", "Hang", "Tfng", "Bopo", "Yiii", "Cans", "Ogam", "Runr", "Goth", "Dsrt", "Lisu", "Vaii", "Thaa", "Samr", "", "none"}
+
+
+def has_ligature(ev):
+    """some cluster of the whole-text result covers more characters than it has glyphs (fact about the output)"""
+    cls = sorted({g["cl"] for g in ev["whole"]})
+    for i, cl in enumerate(cls):
+        span = (cls[i + 1] if i + 1 < len(cls) else ev["n"]) - cl
+        if span >= 2 and sum(1 for g in ev["whole"] if g["cl"] == cl) < span:
+            return True
+    return False
+
+
 def run(c, a):
     c.build_vh()
     thorough = c.tier == "thorough"
     c.rule = ("case = (corpus face with GSUB/GPOS and no morx, text drawn from neighbouring code points of the face's own cmap or a script sample the face covers, direction LTR/RTL/TTB); "
               "the whole text is shaped (Bot|Eot), cut at every cluster boundary whose adjacent glyph lacks the unsafe-to-break flag, the pieces shaped with the neighbouring text as context; "
-              "judged only for monotone clusters in the script's native horizontal direction (or vertical), as the statement says; "
+              "judged whenever the whole text's clusters are monotone, in the script's native direction and against it; "
               "non-trivial = >= 2 pieces and >= 1 flagged glyph; distinct = distinct (face, text, direction)")
-    c.assumptions = ["native direction = the direction GuessSegmentProperties assigns to the text's script; other directions are generated, counted as out of scope and not judged",
+    c.assumptions = ["native direction = the direction GuessSegmentProperties assigns to the text's script (recorded as a class feature of a failing case only)",
                      "glyph identity and position are compared through a signature string (gid, cluster, advances, offsets)"]
     prefix = os.path.join(c.scratch, "utb")
-    out = json.loads(c.vh(["utb", "corpus", 0, 60 if thorough else 12, prefix, NCPU], timeout=7200).stdout)
+    out = json.loads(c.vh(["utb", "corpus", 0, 300 if thorough else 40, prefix, NCPU], timeout=7200).stdout)
     c.extra["generated"] = out
     traces = [t for t in ["%s.%02d.ndjson" % (prefix, i) for i in range(NCPU)] if os.path.exists(t) and os.path.getsize(t) > 0]
     res = c.validate("SafeBreakV", traces, timeout=7200, heap="4g")
@@ -37,7 +53,20 @@ def run(c, a):
                     nw = len(ev["whole"])
                     nf = sum(len(x["sigs"]) for x in ev["frags"])
                     kind = "glyph-count" if nw != nf else "glyph-or-position"
-                c.fail("pred=%s font=%s script=%s kind=%s" % (f["pred"], font, ev["script"], kind),
+                # class of the case, from facts about the text only (necessary conditions of two known causes)
+                if not ev["native"] and ev["rtl"] and (ev["digits"] or not ev["letters"]):
+                    cause = "numeric-heuristic"      # ensureNativeDirection decides "numeric run" per buffer, so per fragment
+                elif not ev["native"] and ev["joiners"]:
+                    cause = "joiner-in-reversed-grapheme"   # graphemes are reversed as units, the context runes are not
+                elif not ev["native"] and ev["script"] not in JOINING | PLAIN:
+                    cause = "syllabic-shaper-nonnative"     # Indic / USE / Khmer / Myanmar syllable reordering on a reversed buffer
+                elif not ev["native"] and has_ligature(ev):
+                    cause = "backward-ligature-cluster-merge"   # merging clusters drops the flag of the glyph whose cluster changes
+                elif ev["decomp"] and ev["marks"]:
+                    cause = "recompose-shortcut"     # the normalizer recomposes only when the buffer holds a mark
+                else:
+                    cause = "none"
+                c.fail("pred=%s cause=%s native=%d script=%s font=%s kind=%s" % (f["pred"], cause, int(ev["native"]), ev["script"], font, kind),
                        "%s text=%s whole=%s frags=%s" % (ev["id"], [hex(x) for x in ev["text"]], str(ev["whole"])[:300], str(ev["frags"])[:300]),
                        {"engine": "utb", "id": ev["id"], "text": ev["text"]})
     c.exhaustive = False
